@@ -6,6 +6,7 @@ import (
 	"go/token"
 	"go/types"
 	"math/big"
+	"regexp"
 	"strings"
 
 	"golang.org/x/tools/go/ssa"
@@ -259,7 +260,31 @@ func (ff *FuncFacts) rawRange(v ssa.Value, at *ssa.BasicBlock, depth int, tr Int
 		if _, ind := ff.inductionPhi[x]; ind {
 			return tr
 		}
-		if ff.headerLoop[x.Block()] != nil {
+		if lp := ff.headerLoop[x.Block()]; lp != nil {
+			// geometric accumulator acc = init; acc = acc*c (c >= 1) proved wrap-free: init <= acc <= init*c^N
+			for i, pred := range x.Block().Preds {
+				if !lp.Blocks[pred] {
+					continue
+				}
+				if mul, ok := x.Edges[i].(*ssa.BinOp); ok && mul.Op == token.MUL && mul.X == x {
+					if why, ok := ff.geomLoopIdiom(mul, tr); ok {
+						var lo, hi big.Int
+						var init *big.Int
+						for j, p2 := range x.Block().Preds {
+							if !lp.Blocks[p2] {
+								if v, ok := constInt(x.Edges[j]); ok {
+									init = v
+								}
+							}
+						}
+						if m := geomBoundRe.FindStringSubmatch(why); m != nil && init != nil {
+							lo.Set(init)
+							hi.SetString(m[1], 10)
+							return Interval{&lo, &hi}
+						}
+					}
+				}
+			}
 			return tr // loop-carried: no widening
 		}
 		var r *Interval
@@ -560,6 +585,8 @@ func hasRealReferrer(v ssa.Value) bool {
 	}
 	return false
 }
+
+var geomBoundRe = regexp.MustCompile(`bound (\d+) fits`)
 
 // geomLoopIdiom: acc = acc * c inside "for k := 0; k < n; k++" where n <= N by its
 // interval: acc <= init * c^N.  Discharged when that bound fits the type.
